@@ -4,7 +4,7 @@ import Pacti.Props.C04
 # C02 — the quotient composed with the divisor refines the dividend (polyhedral contracts)
 
 Same structure as C01: `quotient_sound_poly_any_sound_table` for any tactic table sound on the order used,
-`quotient_sound_poly_partial` for the real table over the tactics proved sound.  `c` is the dividend (top-level
+`quotient_sound_poly` for the real table and every tactic order (every entry of the table is proved sound, see C04).  `c` is the dividend (top-level
 contract), `c1` the divisor (existing component), `q` the quotient.
 -/
 namespace Pacti.C02
@@ -18,12 +18,12 @@ theorem quotient_sound_poly_any_sound_table (O : Oracle) (hO : O.Certified) (tie
       TL.holds c1.a v ∧ TL.holds q.a v ∧ TL.holds c.g v :=
   Alg.quotient_sound PTerm.holds PTerm.vars _ (polyPrims_spec O hO tie false tac rfl) c c1 q addl simp ord hord h
 
-theorem quotient_sound_poly_partial (O : Oracle) (hO : O.Certified) (tie : PTerm → Bool) (hint : PTerm → TL → Bool → Option (List Nat))
-    (c c1 q : Contract PTerm) (addl : List Var) (simp : Bool) (ord : List Nat) (hord : ∀ j ∈ ord, j ∈ [2, 4, 5, 6])
+theorem quotient_sound_poly (O : Oracle) (hO : O.Certified) (tie : PTerm → Bool) (hint : PTerm → TL → Bool → Option (List Nat))
+    (c c1 q : Contract PTerm) (addl : List Var) (simp : Bool) (ord : List Nat) 
     (h : quotient (polyPrims O tie false (realTac O false hint)) c c1 addl simp ord = .ok q) :
     ∀ v, TL.holds c.a v → (TL.holds c1.a v → TL.holds c1.g v) → (TL.holds q.a v → TL.holds q.g v) →
       TL.holds c1.a v ∧ TL.holds q.a v ∧ TL.holds c.g v :=
   quotient_sound_poly_any_sound_table O hO tie _ c c1 q addl simp ord
-    (fun j hj => Pacti.C04.driver_tactics_sound O hO hint j (hord j hj)) h
+    (fun j _ => Pacti.C04.driver_tactics_sound O hO hint j) h
 
 end Pacti.C02
